@@ -8,7 +8,7 @@ ROOT = os.path.dirname(os.path.dirname(os.path.abspath(__file__)))
 # id -> (category, text, note, technique, design_ref)
 CHECKS = {
  "C20": ("exploration",
-   "Generated-input search: every int32 (thorough, exhaustive 2^32; quick: all length-class bounds +-64 and 2^24 distinct interior-bit values) and length-stratified int64 values are encoded and compared byte for byte with an encoder written from CRAM 2.3, Len/Decode agreement and round trip are checked, and arbitrary byte strings are decoded against the spec decoder incl. never reading past the announced length. Exhaustive for ITF-8 in the thorough tier, sampled for LTF-8 (2^64 cannot be enumerated).",
+   "Generated-input search: every int32 (thorough, exhaustive 2^32; quick: all length-class bounds +-64 and 2^24 distinct interior-bit values) and length-stratified int64 values are encoded and compared byte for byte with an encoder written from CRAM 2.3, Len/Decode agreement and round trip are checked, and arbitrary byte strings are decoded against the spec decoder incl. never reading past the announced length; valid CRAM container/block headers are read through cram.NewReader from fragmenting readers, concurrently, and cut inside multi-byte values (decoded fields equal the written ones; a cut is an error, not a clean end). Exhaustive for ITF-8 in the thorough tier, sampled for LTF-8 (2^64 cannot be enumerated).",
    "Trusted: the harness' transcription of CRAM section 2.3; LTF-8 coverage is stratified sampling, not enumeration.",
    "property-based testing: exhaustive/stratified enumeration + rapid, oracle = independent spec encoder/decoder and round trip",
    "DESIGN.md 3/C20"),
@@ -18,7 +18,7 @@ CHECKS = {
    "property-based testing: bounded exhaustive enumeration + rapid, oracle = coverage/validity predicates and idempotence",
    "DESIGN.md 3/C17"),
  "C16": ("exploration",
-   "Generated-input search against transliterations of the SAM 5.3 and CSI reference C code: rapid records (positions on tile/bin edges, CIGARs over all ten ops up to 2^28-1) for End/Len/Lengths/IsValid/Bin; BinFor on the 16 KiB tile grid (thorough: all 2^15x2^15/2 tile pairs, exhaustive at tile granularity; quick: near pairs, power-of-two edges, sampled far pairs); OverlappingBinsFor as sets on narrow, edge and wide intervals; pairwise overlap => bin membership; CSI reg2bin/reg2bins exhaustively over all intervals and overlapping pairs of every geometry with range <=64 (thorough 128) and sampled up to minShift+3*depth=32.",
+   "Generated-input search against transliterations of the SAM 5.3 and CSI reference C code: rapid records (positions on tile/bin edges, CIGARs over all ten ops up to 2^28-1) for End/Len/Lengths/IsValid/Bin; BinFor on the 16 KiB tile grid (thorough: all 2^15x2^15/2 tile pairs, exhaustive at tile granularity; quick: near pairs, power-of-two edges, sampled far pairs); OverlappingBinsFor as sets on narrow, edge and wide intervals; pairwise overlap => bin membership; CSI reg2bin/reg2bins exhaustively over all intervals and overlapping pairs of every geometry with range <=64 (thorough 128) and sampled for every geometry the index reader accepts (depth <= 10, range up to 2^62).",
    "Trusted: the harness' transliterations of the specification code. Bin is not judged where the specification is silent (see evidence assumptions). Large CSI geometries and wide BAI bin lists are sampled.",
    "property-based testing: exhaustive grid enumeration + rapid, oracle = independent spec transliteration and overlap=>membership relation",
    "DESIGN.md 3/C16"),
@@ -28,7 +28,7 @@ CHECKS = {
    "property-based testing (rapid), oracle = generator ground truth + round trip",
    "DESIGN.md 3/C19"),
  "C14": ("exploration",
-   "Model-based (stateful) property testing of LRU, FIFO, Random (plain and StatsRecorder-wrapped): every history up to length 4 (thorough 5) over a 22-operation alphabet is enumerated exhaustively, plus rapid histories of up to 40 operations; after every operation Len/Cap/Peek of all bases, the block identity returned by Get, the eviction choice (unused first, then oldest for LRU/FIFO) and the effect and termination of Resize/Drop/Free are compared with a reference model that follows the reader's ownership rule (only blocks handed back by Put may be overwritten). Concurrent histories of 2-4 goroutines are checked for linearizability with porcupine against the same contract; concurrent StatsRecorder counters are compared with call totals.",
+   "Model-based (stateful) property testing of LRU, FIFO, Random (plain and StatsRecorder-wrapped): every history up to length 4 (thorough 5) over a 22-operation alphabet is enumerated exhaustively, plus rapid histories of up to 40 operations; after every operation Len/Cap/Peek of all bases, the block identity returned by Get, the eviction choice (unused first, then oldest for LRU/FIFO) and the effect and termination of Resize/Drop/Free are compared with a reference model that follows the reader's ownership rule (only blocks handed back by Put may be overwritten). Concurrent histories of 2-4 goroutines are checked for linearizability with porcupine against the same contract; concurrent StatsRecorder counters are compared with call totals; a stress sub-check runs thousands of generated operations from 2-6 goroutines and asserts what holds in every linearization (termination, Len <= largest capacity, answers only for the base asked).",
    "Goroutine schedules of the concurrent part are sampled by real parallel execution, not enumerated; a hang is a 5 s watchdog plus a two-snapshot deadlock signature. Needs the verif-tagged Block factory hook in package bgzf.",
    "stateful model-based property testing (exhaustive short histories + rapid) with a reference model; porcupine linearizability check of generated concurrent histories",
    "DESIGN.md 3/C14"),
@@ -38,12 +38,12 @@ CHECKS = {
    "property-based testing (rapid): round trip against a reference model, differential against compress/gzip",
    "DESIGN.md 3/C01"),
  "C08": ("exploration",
-   "Generated-input search: the same script family with generated gzip header settings (Latin-1 Name/Comment, Extra sub-fields, OS, ModTime incl. values that place BC\\x02\\x00 inside the fixed header) closed or not closed; oracle = an independent RFC 1952/BGZF member walker (sub-field framing, one BC of length 2, true member end via compress/flate, CRC32, ISIZE, BSIZE+1 == length <= 64 KiB, payload <= 65280), header fields equal the configured ones, compress/gzip multistream expansion equals the data, marker <=> closed without error, HasEOF agrees, identical bytes at wc=1.",
+   "Generated-input search: the same script family with generated gzip header settings (Latin-1 Name/Comment, Extra sub-fields, OS, ModTime incl. values that place BC\\x02\\x00 inside the fixed header) closed or not closed, plus members sized to 65533..65540 bytes by header padding (legal ones must be written and read back, larger ones refused with ErrBlockOverflow); oracle = an independent RFC 1952/BGZF member walker (sub-field framing, one BC of length 2, true member end via compress/flate, CRC32, ISIZE, BSIZE+1 == length <= 64 KiB, payload <= 65280), header fields equal the configured ones, compress/gzip multistream expansion equals the data, marker <=> closed without error, HasEOF agrees, identical bytes at wc=1.",
    "Trusted: the harness' member walker and compress/gzip. Scripts refused with ErrBlockOverflow are out of domain (counted).",
    "property-based testing (rapid): independent format parser + differential (compress/gzip) + metamorphic (wc=1 vs wc=k)",
    "DESIGN.md 3/C08"),
  "C12": ("exploration",
-   "Generated-input search over write scripts and completion orders (heavy incompressible block followed by tiny flushed blocks, wc 1..8, delayed sink): after every underlying Write returns and after every API call the delivered bytes must end on a member boundary and decode to a prefix of the data issued so far; after Flush then Wait returned nil the prefix contains everything written before the Flush; after Close everything. Second workload: when bam.NewWriter returns, the sink decodes to exactly the binary header.",
+   "Generated-input search over write scripts and completion orders (heavy incompressible block followed by tiny flushed blocks, wc 1..8, delayed sink): after every underlying Write returns and after every API call the delivered bytes must end on a member boundary and decode to a prefix of the data issued so far; after Flush then Wait returned nil the prefix contains everything written before the Flush; after Close everything. With one failing sink write nothing may be delivered after the failed block and a nil from Wait/Close is still a durability claim. BAM workload: when bam.NewWriter returns, the sink decodes to exactly the binary header; after Close the sink holds every record and the marker, also when the destination is a caller's *bgzf.Writer.",
    "Crash points are the moments the sink can observe (returns of its own Write and of API calls); schedules are sampled.",
    "property-based testing (rapid) with an observing sink: invariant over the history of underlying writes, independent member walker as oracle",
    "DESIGN.md 3/C12"),
@@ -53,12 +53,12 @@ CHECKS = {
    "stateful model-based property testing (rapid) against a reference model",
    "DESIGN.md 3/C02"),
  "C03": ("exploration",
-   "Model-based + differential property testing: C02 histories with SetCache(LRU/FIFO/Random, capacity 1..6, plain or StatsRecorder-wrapped) at the start and at arbitrary points, revisit-heavy seeks, rd 0..8; oracle = the C02 reference model for every op plus an uncached reader running the same history (identical LastChunk/BlockLen trace); watchdog + deadlock signature for 'no call blocks forever', recover for panics.",
+   "Model-based + differential property testing: C02 histories with SetCache(LRU/FIFO/Random, capacity 1..16, plain or StatsRecorder-wrapped) at the start and at arbitrary points, revisit-heavy seeks, pauses that let read-ahead workers settle, seeks to the end of the file, rd 0..8; oracle = the C02 reference model for every op plus an uncached reader running the same history (identical LastChunk/BlockLen trace); watchdog + deadlock signature for 'no call blocks forever', recover for panics.",
    "As C02; a neutral pass-through around three quarters of the caches measures hits/evictions for the non-triviality rule.",
    "stateful model-based property testing (rapid): reference model + differential against the uncached reader",
    "DESIGN.md 3/C03"),
  "C09": ("fault_enumeration",
-   "Fault enumeration over generated workloads: a fault-free run counts the underlying Write (writer) or Read/Seek (reader) calls; then every call index is failed in 4 shapes {error, error after partial data} x {once, sticky}. Writer oracle: every API call returns (4 s watchdog + deadlock signature), Close reports an error whenever the sink failed, errors are monotone (no nil after a reported failure), no EOF marker after a failed Close, no bgzf goroutine remains. Reader oracle: every call returns, every byte returned is the right byte for its position (also after a failed and retried Seek), io.EOF only at the true end, no goroutine remains; rd 1..4, with and without caches.",
+   "Fault enumeration over generated workloads: a fault-free run counts the underlying Write (writer) or Read/Seek (reader) calls; then every call index is failed in 4 shapes {error, error after partial data} x {once, sticky}. Writer oracle: every API call returns (4 s watchdog + deadlock signature), Close reports an error whenever the sink failed, errors are monotone (no nil after a reported failure), no EOF marker after a failed Close, no bgzf goroutine remains (a time budget alone never decides: deadlock signature from two goroutine dumps, or ten times the budget). Reader oracle: every call returns, every byte returned is the right byte for its position (also after a failed and retried Seek), io.EOF only at the true end, no goroutine remains; rd 1..4, with and without caches.",
    "Fault positions are enumerated exhaustively per workload; the workloads and the goroutine schedules (sink delays, rd) are sampled. Faults are honest errors, not silent short writes.",
    "fault injection through harness-owned io.Writer/io.ReadSeeker shims, exhaustive over call indices of rapid-generated workloads; oracle = return/leak watchdog + reference data",
    "DESIGN.md 3/C09"),
@@ -78,7 +78,7 @@ CHECKS = {
    "property-based testing (rapid): round trip + stateful histories with an invariant checked after every step",
    "DESIGN.md 3/C07"),
  "C04": ("exploration",
-   "Generated-input search: rapid coordinate-sorted record sets (positions and lengths on tile and bin-level edges up to the scheme limit, several references, placed-unmapped and unplaced records) are added to BAI, CSI (minShift 4..16, depth 1..6) and tabix indexes with synthetic monotone chunk layouts, and up to 48 boundary-biased queries per case are compared with a brute-force overlap filter (every overlapping record lies inside a returned chunk; error or empty answer implies no overlap; Add never fails or panics) as built, after write/read and after MergeChunks; a second sub-check writes a real BAM, indexes it with the reader's LastChunk values and iterates the returned chunks with bam.Iterator.",
+   "Generated-input search: rapid coordinate-sorted record sets (positions and lengths on tile and bin-level edges up to the scheme limit, several references, placed-unmapped and unplaced records) are added to BAI, CSI (minShift 4..24, depth 1..6, ranges up to 2^40) and tabix indexes with synthetic monotone chunk layouts (also starting at virtual offset zero; one index in three is queried and written while half built; bins with more than 512 chunks), and up to 48 boundary-biased queries per case are compared with a brute-force overlap filter (every overlapping record lies inside a returned chunk; error or empty answer implies no overlap; Add never fails or panics) as built, after write/read and after MergeChunks; a second sub-check writes a real BAM, indexes it with the reader's LastChunk values and iterates the returned chunks with bam.Iterator.",
    "Completeness only (no minimality). Record sets and queries are sampled, biased to the boundaries the bin/tile arithmetic depends on.",
    "property-based testing (rapid): brute-force reference oracle over generated record sets and queries",
    "DESIGN.md 3/C04"),
@@ -93,7 +93,7 @@ CHECKS = {
    "property-based testing (rapid): reference model (record list / flat byte array) over generated files and chunk lists",
    "DESIGN.md 3/C13"),
  "C10": ("fault_enumeration",
-   "Crash-point and corruption enumeration over generated streams: for every generated closed BGZF stream (2..5 blocks) and BAM stream (records spanning blocks) EVERY truncation length and, at EVERY byte position, several substituted values (all 255 for a share of small streams in the thorough tier; structure-aware extra values for BSIZE) are read back at rd 1 and 3; oracle = data/records returned are a prefix of the original, a clean end only at a block (and record) boundary, HasEOF false there, and a substituted stream either fails or yields exactly the original.",
+   "Crash-point and corruption enumeration over generated streams: for every generated closed BGZF stream (2..5 blocks) and BAM stream (records spanning blocks) EVERY truncation length and, at EVERY byte position, several substituted values (all 255 for a share of small streams in the thorough tier; structure-aware extra values for BSIZE) are read back at rd 1 and 3; oracle = data/records returned are a prefix of the original, a clean end only at a block (and record) boundary, HasEOF false for every proper prefix, no data and no nil error from reads after the first error, and a substituted stream either fails or yields exactly the original.",
    "Exhaustive per stream for truncations; substitution values are sampled except where noted; the streams themselves are sampled.",
    "fault enumeration (all cut points, all positions x several values) over rapid-generated streams; oracle = original data/records",
    "DESIGN.md 3/C10"),
@@ -103,7 +103,7 @@ CHECKS = {
    "property-based testing (rapid): reference model (multiset + order predicates) over generated inputs with fault injection by truncation",
    "DESIGN.md 3/C18"),
  "C11": ("exploration",
-   "Generated-input search: rapid structure-aware mutations (flips, grammar-character sets, insert/delete/duplicate/splice, truncation, 16/32-bit length-field overwrites with hostile values) of valid encodings for 17 decoder entry points (BGZF rd 1/2, BAM via re-wrapped inflated payload and raw stream with all Omit modes, SAM reader, UnmarshalSAM, ParseAux, ParseCigar, header text/binary, BAI/CSI/tabix, FAI text and FASTA, CRAM built from a generated container/block description with correct CRCs, ITF-8/LTF-8); every call runs in an isolated worker process (4 GiB address space, 64 MiB stack, 3 s budget re-run at 30 s) and every value returned without error is fed to the library's accessors, formatters, bam.Writer and bam.Index. Thorough tier adds native coverage-guided go fuzzing of the same targets.",
+   "Generated-input search: rapid structure-aware mutations (flips, grammar-character sets, insert/delete/duplicate/splice, truncation, 16/32-bit length-field overwrites with hostile values) of valid encodings for 17 decoder entry points (BGZF rd 1/2, BAM via re-wrapped inflated payload and raw stream with all Omit modes, SAM reader, UnmarshalSAM, ParseAux, ParseCigar, header text/binary, BAI/CSI/tabix, FAI text and FASTA, CRAM built from a generated container/block description with correct CRCs, ITF-8/LTF-8); every call runs in an isolated worker process (4 GiB address space, 64 MiB stack; a hang is 60 s of processor time without memory growth, 20 s without any progress, or 15 min) and every value returned without error is fed to the library's accessors, formatters, bam.Writer and bam.Index. Thorough tier adds native coverage-guided go fuzzing of the same targets.",
    "A worker that dies because one make() sized by a length field exceeds the limit is counted as oversize_not_judged; heap growth to the limit, stack overflow, panics and calls that do not return are violations.",
    "property-based fuzzing: rapid structure-aware mutation in the quick tier, native go test -fuzz in the thorough tier; oracle = totality (returns, no panic, bounded time) in an isolated process",
    "DESIGN.md 3/C11"),
